@@ -24,7 +24,10 @@ Echo == <<[r |-> "echo"]>>
 MkRS(kf, kg) ==
   [rules |-> SubSeq(<< [name |-> S("r1"), expr |-> VecE(<<Call(S("f"), A), Call(S("g"), A)>>)],
                        [name |-> S("r2"), expr |-> Bin("add", Call(S("f"), A), Val(I(1)))],
-                       [name |-> S("r3"), expr |-> Call(S("g"), Call(S("f"), Val(I(5))))] >>, 1, NRules),
+                       [name |-> S("r3"), expr |-> Call(S("g"), Call(S("f"), Val(I(5))))],
+                       \* reaches an unregistered function / symbol only when a < 2: a failed evaluation must not change later ones
+                       [name |-> S("r4"), expr |-> If(Bin("lt", A, Val(I(2))), Call(S("nofn"), A), Bin("add", A, Val(I(1))))],
+                       [name |-> S("r5"), expr |-> Bin("or", Bin("gt", A, Val(I(1))), Bin("eq", Sym(S("nosym")), A))] >>, 1, NRules),
    funcs |-> << [name |-> S("f"), cacheable |-> TRUE, suspend |-> kf, script |-> Echo],
                 [name |-> S("g"), cacheable |-> FALSE, suspend |-> kg, script |-> Echo] >>,
    syms |-> <<>>]
